@@ -11,3 +11,4 @@ import PysamlModel.Props.C16
 #print axioms C16.C16_recoverable
 #print axioms C16.C16_model_meets_spec
 #print axioms C16.C16_history_meets_spec
+#print axioms C16.C16_entry_defaults
